@@ -80,6 +80,10 @@ def gen(rng, tier, info):
                 for pos in range(len(line) + 1):
                     cases.append({"tree": t, "toks": line[:pos] + sel + line[pos:], "k": pos})
                 cases.append({"tree": t, "toks": line + ["--"] + sel, "k": len(line), "tail": len(sel)})
+            # a switch directly before the double dash, switches after it (the look-ahead of a valued switch must not eat '--')
+            for before in SWITCHES:
+                for after in SWITCHES:
+                    cases.append({"tree": t, "toks": line + [before, "--", after], "k": len(line), "tail": 1})
             for _ in range({"quick": 40, "thorough": 200, "search": 10}[tier]):
                 sel = rng.sample(SWITCHES, 3)
                 pos = sorted(rng.randint(0, len(line)) for _ in range(3))
